@@ -669,6 +669,35 @@ pub fn unit_c19(w: &World, seed: u64, unit: u64, tier: Tier) -> Vec<Case> {
     let mut r = Rng::derive(seed, &[prop_tag(prop), unit]);
     let mut out: Vec<Case> = vec![];
     let ppct = pending_pct(&mut r);
+    if r.chance(1, 4) {
+        // protobuf: generated messages, contiguous and fragmented input
+        use crate::pwire::*;
+        let name = *r.pick(&["AllScalars", "Small", "Maps", "Choice", "Node", "Peer", "Envelope", "Envelope"]);
+        let mut e = PEnc::new();
+        let knobs = PKnobs::swarm(&mut r);
+        {
+            let mut g = PGen { r: &mut r, k: knobs, corpus: &w.pcorpus, budget: 300 };
+            g.message(&mut e, name, 1);
+        }
+        let lvname = format!("pbgen:{}", name);
+        let base = Base { proto: Proto::Binary, level: Level::Pb(lvname.clone()), bytes: e.out.clone(), spans: e.spans, note: format!("{}[{}]", name, e.out.len()), tv: None, conforming: false };
+        for f in enumerate_faults(&mut r, &base, tier, true) {
+            for frag in [false, true] {
+                let mut c = mk_case(prop, &base, unit);
+                c.bytes = f.bytes.clone();
+                c.fault = f.desc.clone();
+                c.fault_kind = f.kind.into();
+                c.run_mem = !frag;
+                c.run_stream = frag;
+                c.sched = if frag { chunk_plan(&mut r, c.bytes.len()) } else { Schedule::whole() };
+                out.push(c);
+            }
+        }
+        for (i, c) in out.iter_mut().enumerate() {
+            c.idx = i as u64;
+        }
+        return out;
+    }
     let proto = *r.pick(&[Proto::Binary, Proto::Compact, Proto::Binary, Proto::Compact, Proto::BinaryLE]);
     let b = gen_base(w, &mut r, Mix { gen: 90, prim: 10, envelope: 0 }, Some(proto));
     let faults = enumerate_faults(&mut r, &b, tier, true);
